@@ -407,6 +407,47 @@ def skipped (o : ROpts) (segs : List RSeg) : Bool :=
   | [s] => !s.zigzag || o.justUnifying
   | _ => false
 
+/-! ### `linesort` (insertion sort with a partial comparator) and the rules of `CmpLineOrder` that need no point order -/
+
+/-- what the first three rules of `CmpLineOrder::operator()` decide for (lhs, rhs): position, then
+    `fixedOrder` when one of the two is fixed, then `order()`; `none` = left to the point orders
+    (`PtOrderMap`, not modelled). Comparisons decided here are always "comparable". -/
+def ruleCmp (nudgeDist : Rat) (l r : RSeg) : Option Bool :=
+  if l.pos ≠ r.pos then some (decide (l.pos < r.pos))
+  else
+    let fl := fixedOrder nudgeDist l
+    let fr := fixedOrder nudgeDist r
+    if (fl.2 || fr.2) && decide (fl.1 ≠ fr.1) then some (decide (fl.1 < fr.1))
+    else if order l ≠ order r then some (decide (order l < order r))
+    else none
+
+/-- insertion of `s` before the first element `c` with `comparison(s, c)` = (lessThan, comparable) = (true, true) -/
+def insertBefore {α : Type} (cmp : α → α → Bool × Bool) (s : α) : List α → List α
+  | [] => [s]
+  | c :: rest => if cmp s c = (true, true) then s :: c :: rest else c :: insertBefore cmp s rest
+
+/-- `allComparable` of the scan that `insertBefore` performs -/
+def allComparableScan {α : Type} (cmp : α → α → Bool × Bool) (s : α) : List α → Bool
+  | [] => true
+  | c :: rest => (cmp s c).2 && (if cmp s c = (true, true) then true else allComparableScan cmp s rest)
+
+/-- the loop of `linesort` after the merging step: take the first element of `orig`; insert it when the
+    result is empty, everything scanned was comparable or enough elements have been deferred; otherwise
+    defer it to the back of `orig` -/
+def linesortLoop {α : Type} (cmp : α → α → Bool × Bool) : Nat → List α → List α → Nat → Nat → List α
+  | 0, _, res, _, _ => res
+  | _ + 1, [], res, _, _ => res
+  | fuel + 1, s :: rest, res, origSize, deferred =>
+    if res.isEmpty || allComparableScan cmp s res || decide (origSize ≤ deferred) then
+      linesortLoop cmp fuel rest (insertBefore cmp s res) rest.length 0
+    else
+      linesortLoop cmp fuel (rest ++ [s]) res origSize (deferred + 1)
+
+/-- the first adjacent pair (a directly before b) that contradicts a rule-decided comparison -/
+def orderViolation (nudgeDist : Rat) : List RSeg → Option (RSeg × RSeg)
+  | a :: b :: rest => if ruleCmp nudgeDist b a = some true then some (a, b) else orderViolation nudgeDist (b :: rest)
+  | _ => none
+
 /-! ### IEEE double rounding (round to nearest, ties to even; normal range only) -/
 
 /-- largest `e` (searching downwards from `hi`, at most `fuel` steps) with `2^e ≤ r`, for `r > 0` -/
